@@ -6,30 +6,35 @@
 (* boundaries, several option lists.  Also checks Ref self-consistency.           *)
 EXTENDS Domains, TLC, Json
 
-VARIABLES rc, ver, udp, opts, nar, pos, dobit
-vars == <<rc, ver, udp, opts, nar, pos, dobit>>
+VARIABLES rc, ver, udp, opts, nar, pos, dobit, two
+vars == <<rc, ver, udp, opts, nar, pos, dobit, two>>
 
 Other(i) == [name |-> <<<<120 + i>>, La>>, type |-> 1, class |-> 1, cf |-> FALSE, ttl |-> <<0, 0, 0, 9>>,
              rd |-> <<<<10, 0, 0, i>>>>]
 
 Init ==
   \/ /\ rc \in NamedRcodes /\ ver \in {0, 1, 128, 255} /\ nar \in 0 .. 2 /\ pos \in 0 .. nar
-     /\ udp = 1232 /\ opts = <<<<3, <<9>>>>>> /\ dobit = 0
+     /\ udp = 1232 /\ opts = <<<<3, <<9>>>>>> /\ dobit = 0 /\ two = FALSE
+  \* a second, different OPT record at the end of the additional section (RFC 6891 says at most one; a
+  \* parser that accepts such a message must still re-serialise it faithfully: C11)
+  \/ /\ rc \in {0, 16} /\ ver \in {0, 3} /\ nar \in 0 .. 2 /\ pos \in 0 .. nar
+     /\ udp = 1232 /\ opts = <<<<3, <<9>>>>>> /\ dobit = 0 /\ two = TRUE
   \/ /\ rc = 16 /\ ver = 0 /\ nar = 1 /\ pos \in 0 .. 1
-     /\ udp \in {0, 512, 65535} /\ opts \in Dom(Tlv) /\ dobit \in {0, 128}
+     /\ udp \in {0, 512, 65535} /\ opts \in Dom(Tlv) /\ dobit \in {0, 128} /\ two = FALSE
 Next == UNCHANGED vars
 Spec == Init /\ [][Next]_vars
 
 OptRR == [name |-> <<>>, type |-> 41, class |-> udp, cf |-> FALSE,
           ttl |-> <<rc \div 16, ver, dobit, 0>>, rd |-> <<opts>>]
 Others == [i \in 1 .. nar |-> Other(i)]
-ArRaw == SubSeq(Others, 1, pos) \o <<OptRR>> \o SubSeq(Others, pos + 1, nar)
+Opt2 == [name |-> <<>>, type |-> 41, class |-> 4096, cf |-> FALSE, ttl |-> <<1, 1, 0, 0>>, rd |-> <<<<<<10, <<1, 2, 3, 4, 5, 6, 7, 8>>>>>>>>]
+ArRaw == SubSeq(Others, 1, pos) \o <<OptRR>> \o SubSeq(Others, pos + 1, nar) \o (IF two THEN <<Opt2>> ELSE <<>>)
 
-Msg == HdrEncode(7, {"qr", "ra"}, 0, rc % 16, 0, 0, 0, nar + 1) \o CatMap(EncRecord, ArRaw)
+Msg == HdrEncode(7, {"qr", "ra"}, 0, rc % 16, 0, 0, 0, Len(ArRaw)) \o CatMap(EncRecord, ArRaw)
 
 Expected == [id |-> 7, fs |-> MaskOf({"qr", "ra"}), opcode |-> 0, rcode |-> rc,
              opt |-> <<[udp |-> udp, version |-> ver, options |-> opts]>>,
-             qd |-> <<>>, an |-> <<>>, ns |-> <<>>, ar |-> Others]
+             qd |-> <<>>, an |-> <<>>, ns |-> <<>>, ar |-> Others \o (IF two THEN <<Opt2>> ELSE <<>>)]
 
 RefAgrees == LET d == RefDecode(Msg) IN d.ok /\ d.exact /\ d.end = Len(Msg) /\ d.pkt = Expected
 
